@@ -319,6 +319,80 @@ def Tether.withTether (t : Tether α) (p q : Pt α) : Tether α :=
       ⟨r.x - t.offX, r.y - t.offY⟩
     Tether.new t.offX t.offY (some (un p, un q))
 
+/-! ### affine maps (`TransformMatrix`): colour alignment and tether rotation of the pixel data
+
+  `TiffFrame._align_image` warps channel `c` of the raw page with `tether.rot_matrix * alignment_c⁻¹`
+  (`TransformMatrix.__mul__` is `np.matmul`, `warp_image(M)` shows the content of raw point `r` at `M r`);
+  without alignment the whole page is warped with `tether.rot_matrix` alone; `Roi.__call__` then cuts the window. -/
+
+/-- The 2×3 part `[[a, b, c], [d, e, f]]` of an affine 3×3 matrix with last row `0 0 1`. -/
+structure Aff (α : Type) where
+  a : α
+  b : α
+  c : α
+  d : α
+  e : α
+  f : α
+
+/-- `TransformMatrix.warp_coordinates` on one point. -/
+def Aff.apply (m : Aff α) (p : Pt α) : Pt α :=
+  ⟨m.a * p.x + m.b * p.y + m.c, m.d * p.x + m.e * p.y + m.f⟩
+
+/-- `TransformMatrix.__mul__`: `np.matmul(self.matrix, mat.matrix)`. -/
+def Aff.mul (m n : Aff α) : Aff α :=
+  ⟨m.a * n.a + m.b * n.d, m.a * n.b + m.b * n.e, m.a * n.c + m.b * n.f + m.c,
+   m.d * n.a + m.e * n.d, m.d * n.b + m.e * n.e, m.d * n.c + m.e * n.f + m.f⟩
+
+/-- `TransformMatrix.invert` (`np.linalg.inv` of the 3×3 matrix, written out). -/
+def Aff.inv (m : Aff α) : Aff α :=
+  let det := m.a * m.e - m.b * m.d
+  ⟨m.e / det, (-m.b) / det, (m.b * m.f - m.c * m.e) / det,
+   (-m.d) / det, m.a / det, (m.c * m.d - m.a * m.f) / det⟩
+
+def Aff.one : Aff α := ⟨1.0, 0.0, 0.0, 0.0, 1.0, 0.0⟩
+def Aff.translation (x y : α) : Aff α := ⟨1.0, 0.0, x, 0.0, 1.0, y⟩
+
+/-- `TransformMatrix.from_alignment(alignment, x_offset, y_offset)`: the Bluelake matrix re-expressed for a ROI whose
+    origin differs from the alignment ROI by `(xo, yo)`: `back_translation · original · translation`. -/
+def Aff.fromAlignment (m : Aff α) (xo yo : α) : Aff α :=
+  (Aff.translation (m.a * xo) (m.e * yo)).mul (m.mul (Aff.translation (-xo) (-yo)))
+
+/-- `TransformMatrix.rotation(theta, center)` for the tether with raw ends `e` (same map as `rotate e`). -/
+def rotAff (e : Pt α × Pt α) : Aff α :=
+  ⟨tCos e, tSin e, tCx e - tCos e * tCx e - tSin e * tCy e,
+   -tSin e, tCos e, tCy e + tSin e * tCx e - tCos e * tCy e⟩
+
+/-- `Tether.rot_matrix` -/
+def Tether.rotMatrix (t : Tether α) : Aff α :=
+  match t.ends with
+  | none => Aff.one
+  | some e => rotAff e
+
+/-- The matrix one colour channel of a page is warped with; `alignInv` is `_alignment_matrices[channel]`
+    (already inverted), `none` when no alignment is applied (grey data, no metadata, `align=False`). -/
+def Tether.frameMatrix (t : Tether α) (alignInv : Option (Aff α)) : Aff α :=
+  match alignInv with
+  | none => t.rotMatrix
+  | some m => t.rotMatrix.mul m
+
+/-- Where the un-tethered, un-cropped image shows the content of raw point `r` of a channel. -/
+def shownAt (alignInv : Option (Aff α)) (r : Pt α) : Pt α :=
+  match alignInv with
+  | none => r
+  | some m => m.apply r
+
+/-- The same with the operands of the product swapped (seeded change C07d-m2): rotate the raw channel first, align
+    afterwards.  Not used by the model; kept for the witness `align_then_rotate_order_matters`. -/
+def Tether.frameMatrixSwapped (t : Tether α) (alignInv : Option (Aff α)) : Aff α :=
+  match alignInv with
+  | none => t.rotMatrix
+  | some m => m.mul t.rotMatrix
+
+/-- Where the content of raw point `r` of a channel shows up in the processed (rotated, cropped) image. -/
+def Tether.land (t : Tether α) (alignInv : Option (Aff α)) (r : Pt α) : Pt α :=
+  let p := (t.frameMatrix alignInv).apply r
+  ⟨p.x - t.offX, p.y - t.offY⟩
+
 end tether
 
 /-! ### kymograph window (`_kymo_from_image_stack`), on the floors of the processed tether ends -/
@@ -476,7 +550,26 @@ def pages? (starts stops exps : String) : Option (List Page) := do
     some ((a.zip (b.zip c)).map fun (x, y, z) => ⟨x, y, z⟩)
   else none
 
+/-- `-` (channel not aligned) or `a00,a01,a02,a10,a11,a12,xoff,yoff`: the Bluelake alignment matrix of a channel and
+    the offset of the alignment ROI; answers `_alignment_matrices[channel]` = `from_alignment(…).invert()`. -/
+def alignment? (s : String) : Option (Option (Aff Float)) :=
+  if s == "-" then some none
+  else do
+    match ← (s.splitOn ",").mapM float? with
+    | [a, b, c, d, e, f, xo, yo] => some (some ((Aff.fromAlignment ⟨a, b, c, d, e, f⟩ xo yo).inv))
+    | _ => none
+
+/-- `x,y;x,y;…` -/
+def points? (s : String) : Option (List (Pt Float)) :=
+  (s.splitOn ";").mapM fun p => do
+    match ← (p.splitOn ",").mapM float? with
+    | [x, y] => some ⟨x, y⟩
+    | _ => none
+
 /-- ops:
+  `c07.land <m|m|…> <pts|pts|…> <h> <w> [starts] [stops] [expStops] <legacy> op…`   as `c07.run`; additionally, per
+      colour channel (alignment `m`, see `alignment?`), where the content of the raw points `pts` of that channel
+      shows up in the final image: `<state> x,y;x,y|x,y;x,y|…`
   `c07.run <h> <w> [starts] [stops] [expStops] <legacy T/F> op…`   run a program on a fresh stack of
       `len starts` pages of `h × w` pixels, answer the final state (or the first error)
   `c07.indices a b c n`     `slice(a,b,c).indices(n)` start/stop (self-test of the Python description)
@@ -491,6 +584,19 @@ def handle : List String → Option String
     let t0 : TStack := ⟨⟨0, pages.length, 1, ⟨0, w, 0, h⟩⟩, Tether.new 0.0 0.0 none⟩
     match ← runProg pages t0 prog with
     | .ok t => some (showState t pages legacy)
+    | .error e => some e.show
+  | "c07.land" :: mats :: pts :: h :: w :: starts :: stops :: exps :: legacy :: prog => do
+    let mats ← (mats.splitOn "|").mapM alignment?
+    let pts ← (pts.splitOn "|").mapM points?
+    if mats.length ≠ pts.length then none
+    let h ← nat? h; let w ← nat? w
+    let pages ← pages? starts stops exps
+    let legacy ← bool? legacy
+    let t0 : TStack := ⟨⟨0, pages.length, 1, ⟨0, w, 0, h⟩⟩, Tether.new 0.0 0.0 none⟩
+    match ← runProg pages t0 prog with
+    | .ok t =>
+      let landed := (mats.zip pts).map fun (m, ps) => ps.map fun r => t.teth.land m r
+      some (showState t pages legacy ++ " " ++ "|".intercalate (landed.map fun ps => ";".intercalate (ps.map showPt)))
     | .error e => some e.show
   | ["c07.indices", a, b, c, n] => do
     let a ← optInt? a; let b ← optInt? b; let c ← int? c; let n ← nat? n
